@@ -23,7 +23,7 @@ ASSUMPTIONS = [
     "A1 SymReal arithmetic is exact real arithmetic: rounding, overflow, inf/nan are outside the claim",
     "A2 `float` inside unyt.unit_object/unit_registry/array is the identity on a symbolic real",
     "A3 math.isclose in unyt.unit_object is CPython's documented formula as a z3 term",
-    "A4 `np` inside unyt modules is real NumPy except: float casts of object payloads are no-ops; dtype(...).type(v) is the identity on a symbolic real; isclose/allclose are the formula |a-b| <= atol + rtol*|b|",
+    "A4 `np` inside unyt modules is real NumPy except: float casts of object payloads are no-ops; dtype(...).type(v) is the identity on a symbolic real; a float64/complex128 dtype built inside unyt compares equal to the dtype of an object payload; isclose/allclose are the formula |a-b| <= atol + rtol*|b|",
     "A5 unyt.array.DISALLOWED_DTYPES without 'O'; the dtype-kind gate in Unit.__mul__ admits 'O' (load-time AST rewrite of the one tuple, checked to exist exactly once)",
     "A6 transcendental functions are uninterpreted; roots are witness variables w>=0, w**q==x; floor/rint/trunc via ToInt",
     "A7 every lru_cache of the unyt modules is cleared at the start of every path (except where a harness says otherwise)",
@@ -90,7 +90,7 @@ def _run_case(idx):
     t0 = time.time()
     stats = _new_stats(tier)
     stats["cross_left"] = _G.get("cross_per_case", 0) if idx in _G.get("cross_cases", ()) else 0
-    stats["cross_timeout_ms"] = 1500 if tier == "quick" else 4000
+    stats["cross_timeout_ms"] = 1500 if tier == "quick" else 2500
     ot = case.oblig_timeout_ms or (10000 if tier == "quick" else 60000)
     state = {"first": True, "functions": set()}
     outcomes = {"ok": 0, "raise": 0, "unsupported": 0, "domain": 0, "limit": 0}
@@ -401,8 +401,8 @@ def main(argv=None):
     conform = set(rnd.sample(confable, min(nconf, len(confable))))
     # second-opinion budget: queries per case that are re-decided by cvc5 (0 disables)
     # (a seeded sample of the cases, so that the second opinion costs seconds, not minutes: cvc5 is slow on non-linear reals)
-    cross = int(os.environ.get("VERIF_CROSS_PER_CASE", "1" if a.tier == "quick" else "3"))
-    ncross = int(os.environ.get("VERIF_CROSS_CASES", "64" if a.tier == "quick" else "600"))
+    cross = int(os.environ.get("VERIF_CROSS_PER_CASE", "1" if a.tier == "quick" else "2"))
+    ncross = int(os.environ.get("VERIF_CROSS_CASES", "64" if a.tier == "quick" else "300"))
     try:
         import cvc5  # noqa: F401
     except Exception:
